@@ -274,7 +274,10 @@ static void immediate_case(void)
 		    "a DNS query was sent for node %s", node ? node : "NULL");
 		if (rq) { mc_fail("C38/immediate/not-immediate", "evdns_getaddrinfo returned a pending request for node %s", node ? node : "NULL"); evdns_getaddrinfo_cancel(rq); pump(); }
 		MC_COUNT("oracle_no_query");
-		check_result("immediate", hp, &g, &e);
+		static const char *const nclass[] = { "immediate/null-node", "immediate/numeric", "immediate/numeric", "immediate/hosts", "immediate/hosts", "immediate/hosts", "immediate/hosts" };
+		char what[64];
+		snprintf(what, sizeof what, "%s%s", nclass[ni], (flags & EVUTIL_AI_NUMERICHOST) ? "-numerichost" : "");
+		check_result(what, hp, &g, &e);
 	}
 	mc_observe("-> %d n=%d", g.result, g.called);
 	if (g.res) evutil_freeaddrinfo(g.res);
@@ -354,7 +357,10 @@ static void dns_case(void)
 	int order = both && sa != SC_DROP && s6 != SC_DROP ? mc_choose(4, 0, "arrival") : 0;   /* 0 A,AAAA  1 AAAA,A  2 A,+2s,AAAA  3 AAAA,+2s,A */
 	int ti = mc_choose(nttl, 0, "ttls");
 	int cshort = cname && ncttl > 1 ? mc_choose(2, 0, "cname-ttl-short") : 0;
-	uint32_t ttl_a = ttls[ti].a, ttl_6 = ttls[ti].b, ttl_c = cshort ? 3 : (ttl_a < ttl_6 ? ttl_a : ttl_6);
+	uint32_t ttl_a = ttls[ti].a, ttl_6 = ttls[ti].b;
+	/* CNAME TTL: normally the shortest TTL among the address records that are asked for; the "short" variant makes the alias expire first */
+	uint32_t ttl_c = sa < 0 ? ttl_6 : s6 < 0 ? ttl_a : (ttl_a < ttl_6 ? ttl_a : ttl_6);
+	if (cshort) ttl_c = 4;
 	mc_observe("dns fam=%s st=%d canon=%d A=%s AAAA=%s cname=%d order=%d ttl=%u/%u/c%u ", famname(h.ai_family), h.ai_socktype, canon1,
 	    sa >= 0 ? sc_name[sa] : "-", s6 >= 0 ? sc_name[s6] : "-", cname, order, ttl_a, ttl_6, ttl_c);
 
@@ -428,9 +434,10 @@ static void dns_case(void)
 		else {
 			/* every contributing record must still be within its TTL */
 			int a_contrib = sa == SC_ONE || sa == SC_TWO, b_contrib = s6 == SC_ONE || s6 == SC_TWO;
-			if (a_contrib && (uint32_t)age >= ttl_a) mc_fail("C38/cache/hit-past-ttl/A-records", "cache hit at age %d s, the A records had TTL %u (AAAA %u, arrival order %d)", age, ttl_a, ttl_6, order);
-			if (b_contrib && (uint32_t)age >= ttl_6) mc_fail("C38/cache/hit-past-ttl/AAAA-records", "cache hit at age %d s, the AAAA records had TTL %u (A %u, arrival order %d)", age, ttl_6, ttl_a, order);
-			if (have_cname && (uint32_t)age >= ttl_c) mc_fail("C38/cache/hit-past-ttl/CNAME-record", "cache hit at age %d s, the CNAME had TTL %u", age, ttl_c);
+			int a_exp = a_contrib && (uint32_t)age >= ttl_a, b_exp = b_contrib && (uint32_t)age >= ttl_6;
+			if (a_exp) mc_fail(b_contrib ? "C38/cache/hit-past-ttl/A-records-merged-with-AAAA" : "C38/cache/hit-past-ttl/A-records", "cache hit at age %d s, the A records had TTL %u (AAAA %u, arrival order %d)", age, ttl_a, ttl_6, order);
+			if (b_exp) mc_fail(a_contrib ? "C38/cache/hit-past-ttl/AAAA-records-merged-with-A" : "C38/cache/hit-past-ttl/AAAA-records", "cache hit at age %d s, the AAAA records had TTL %u (A %u, arrival order %d)", age, ttl_6, ttl_a, order);
+			if (!a_exp && !b_exp && have_cname && (uint32_t)age >= ttl_c) mc_fail("C38/cache/hit-past-ttl/CNAME-record", "cache hit at age %d s, the CNAME had TTL %u (A %u, AAAA %u)", age, ttl_c, ttl_a, ttl_6);
 			MC_COUNT("oracle_cache_ttl");
 			/* content: the stored answers restricted to the requested family */
 			for (int k = 0; k < e1.n; k++)
@@ -440,7 +447,9 @@ static void dns_case(void)
 				if (!have_cname) mc_fail("C38/cache/hit-without-cname", "AI_CANONNAME request served from a cached answer that carries no CNAME (documented: not a hit)");
 				e2.canon = CANON;
 			}
-			check_result("cache", &h2, &g2, &e2);
+			char what[64];
+			snprintf(what, sizeof what, "cache/orig-%s%s/%s", h.ai_socktype ? "stream" : "anysock", canon1 ? "-canon" : "", canon2 ? "canon" : "plain");
+			check_result(what, &h2, &g2, &e2);
 		}
 	} else {
 		MC_COUNT("cache_misses");
